@@ -241,7 +241,8 @@ func (association *Association) Delete(values ...interface{}) error {
 				}
 				if _, fvs := schema.GetIdentityFieldValuesMap(association.DB.Statement.Context, reflectValue, foreignFields); len(fvs) > 0 {
 					column, values := schema.ToQueryValues(rel.FieldSchema.Table, rel.FieldSchema.PrimaryFieldDBNames, fvs)
-					association.Error = associationDB.Model(nil).Where(clause.IN{Column: column, Values: values}).Delete(reflect.New(rel.FieldSchema.ModelType).Interface()).Error
+					namedColumn, named := schema.ToQueryValues(rel.FieldSchema.Table, rel.FieldSchema.PrimaryFieldDBNames, rvs)
+					association.Error = associationDB.Model(nil).Where(clause.IN{Column: column, Values: values}).Where(clause.IN{Column: namedColumn, Values: named}).Delete(reflect.New(rel.FieldSchema.ModelType).Interface()).Error
 				}
 			}
 		case schema.HasOne, schema.HasMany:
